@@ -4,8 +4,9 @@
    cell operation; add_/sub_/mul_/div_/pow_/comparisons are the instances cell_op of model/M_tsops.v.
    Series / scalar operands and pairs of proper (multi-column) DataFrames are treated at full strength, including
    presync's per-column dispatch and the assembly of the per-column results into the result frame (theorems C08_frame_index, _pointwise, _comm).
-   Mixed Series x DataFrame operands and single-column frames follow the same model and are checked by the
-   correspondence. *)
+   Mixed operands (DataFrame x Series / scalar / single-column frame) are covered by C08_mixed_operands.  Two
+   operands without any proper frame where one is a single-column frame (result: a one-column frame), and
+   min_ / max_ on DataFrames follow the same model and are checked by correspondence. *)
 From Coq Require Import ZArith List Bool Lia.
 From PB Require Import model.M_align model.M_tsops proofs.P_align proofs.P_tsops.
 Import ListNotations.
@@ -161,6 +162,61 @@ Theorem C08_frame_comm opc h m ch d ca ra cb rb : (forall x y, opc x y = opc y x
 Proof. exact (binop_frames_comm opc h m ch d ca ra cb rb). Qed.
 Print Assumptions C08_frame_comm.
 
+(* any two operands among Series / scalar / single-column frame (pseudo-series) / proper frame, at least one proper
+   frame: the result frame has the policy's column set and cell (t, x) = opc (operand cell of a) (operand cell of b),
+   where a Series, a scalar and a pseudo-series contribute the same value to every column (ocell) *)
+Theorem C08_mixed_operands opc h m ch d a b P C : simple a = true -> simple b = true ->
+  join_index h (pd_indexes [a; b]) = Some P -> join_index ch (frame_cols [a; b]) = Some C ->
+  (forall x, In x C -> is_ser a x || is_ser b x = true) ->
+  binop opc h m ch d a b = mix_result opc m d a b C P /\
+  (C <> [] -> exists rows, binop opc h m ch d a b = OF C rows /\ index_of rows = P) /\
+  (forall t x, In t P -> In x C -> frame_cell (binop opc h m ch d a b) t x = opc (ocell m d a x t) (ocell m d b x t)).
+Proof.
+  intros Sa Sb HP HC Hs. pose proof (binop_mix opc h m ch d a b P C Sa Sb HP HC Hs) as E. rewrite E.
+  split; [reflexivity|]. split.
+  - intros Hne. unfold mix_result. destruct C as [|x0 C']; [contradiction|]. eexists. split; [reflexivity|].
+    apply (index_map_fn (fun t => map (fun x => opc (ocell m d a x t) (ocell m d b x t)) (x0 :: C'))).
+  - intros t x Ht Hx. apply mix_result_cell; assumption.
+Qed.
+Print Assumptions C08_mixed_operands.
+
+(* the two common mixes spelled out: DataFrame x Series (the series is used for every column) and DataFrame x scalar *)
+Theorem C08_frame_with_series_or_scalar opc h m ch d ca ra : multi ca = true -> (forall x, ch <> HX x) ->
+  (forall s P t x, join_index h [index_of ra; index_of s] = Some P -> In t P -> In x ca ->
+     frame_cell (binop opc h m ch d (OF ca ra) (OS s)) t x = opc (fcell m d ca ra x t) (val_at m s t)) /\
+  (forall c t x, (forall y, h <> HX y) -> In t (index_of ra) -> In x ca ->
+     frame_cell (binop opc h m ch d (OF ca ra) (ON c)) t x = opc (fcell m d ca ra x t) c /\
+     frame_cell (binop opc h m ch d (ON c) (OF ca ra)) t x = opc c (fcell m d ca ra x t)).
+Proof.
+  intros Ha Hch.
+  assert (Hoc : forall x t, ocell m d (OF ca ra) x t = fcell m d ca ra x t).
+  { intros x t. destruct (multi_two ca Ha) as [c0 [c1 [cs ->]]]. reflexivity. }
+  assert (Hsim : simple (OF ca ra) = true).
+  { destruct (multi_two ca Ha) as [c0 [c1 [cs ->]]]. reflexivity. }
+  assert (Hser : forall x, In x ca -> is_ser (OF ca ra) x = true).
+  { intros x Hx. destruct (multi_two ca Ha) as [c0 [c1 [cs E]]]. subst ca. apply mem_In. exact Hx. }
+  split.
+  - intros s P t x HP Ht Hx.
+    assert (HC : join_index ch (frame_cols [OF ca ra; OS s]) = Some ca).
+    { rewrite (proj1 (frame_cols_one ca ra (OS s) Ha ltac:(intros; discriminate))). apply join_index_single. exact Hch. }
+    destruct (C08_mixed_operands opc h m ch d (OF ca ra) (OS s) P ca Hsim eq_refl HP HC ltac:(intros; apply orb_true_r)) as [_ [_ Hcell]].
+    rewrite (Hcell t x Ht Hx), Hoc. reflexivity.
+  - intros c t x Hh Ht Hx. split.
+    + assert (HC : join_index ch (frame_cols [OF ca ra; ON c]) = Some ca).
+      { rewrite (proj1 (frame_cols_one ca ra (ON c) Ha ltac:(intros; discriminate))). apply join_index_single. exact Hch. }
+      assert (HP : join_index h (pd_indexes [OF ca ra; ON c]) = Some (index_of ra)) by (apply join_index_single; exact Hh).
+      destruct (C08_mixed_operands opc h m ch d (OF ca ra) (ON c) _ ca Hsim eq_refl HP HC
+                  ltac:(intros y Hy; rewrite (Hser y Hy); reflexivity)) as [_ [_ Hcell]].
+      rewrite (Hcell t x Ht Hx), Hoc. reflexivity.
+    + assert (HC : join_index ch (frame_cols [ON c; OF ca ra]) = Some ca).
+      { rewrite (proj2 (frame_cols_one ca ra (ON c) Ha ltac:(intros; discriminate))). apply join_index_single. exact Hch. }
+      assert (HP : join_index h (pd_indexes [ON c; OF ca ra]) = Some (index_of ra)) by (apply join_index_single; exact Hh).
+      destruct (C08_mixed_operands opc h m ch d (ON c) (OF ca ra) _ ca eq_refl Hsim HP HC
+                  ltac:(intros y Hy; rewrite (Hser y Hy); apply orb_true_r)) as [_ [_ Hcell]].
+      rewrite (Hcell t x Ht Hx), Hoc. reflexivity.
+Qed.
+Print Assumptions C08_frame_with_series_or_scalar.
+
 (* the defaults of the kernels are neutral: 0 for add_/sub_, 1 for mul_/div_ *)
 Theorem C08_defaults_are_neutral v :
   addc v (Some 0) = v /\ addc (Some 0) v = v /\ subc v (Some 0) = v /\ mulc v (Some 1) = v /\ mulc (Some 1) v = v /\ divc v (Some 1) = v.
@@ -231,6 +287,21 @@ Proof.
   - intros cs. destruct (agg_cell_spec cs) as [A [B C]]. split; [exact A|]. split; [apply present_nil|]. split; assumption.
 Qed.
 Print Assumptions C08_sum_mean_count.
+
+(* the same on DataFrames: joint index, column set by policy (union for 'oj'); cell (t, x) aggregates the aligned cells of
+   all frames, a frame that lacks column x or timestamp t counting as NaN (ocell with default NaN) *)
+Theorem C08_sum_mean_count_frames g h m ch c0 r0 rest P C : all_frames (OF c0 r0 :: rest) ->
+  join_index h (pd_indexes (OF c0 r0 :: rest)) = Some P -> join_index ch (frame_cols (OF c0 r0 :: rest)) = Some C ->
+  df_agg g h m ch (OF c0 r0 :: rest) =
+    OF C (map (fun t => (t, map (fun x => agg_cell g (map (fun o => ocell m None o x t) (OF c0 r0 :: rest))) C)) P) /\
+  (ch = HO -> forall x, In x C <-> exists c, In c (frame_cols (OF c0 r0 :: rest)) /\ In x c) /\
+  (h = HO -> forall t, In t P <-> exists i, In i (pd_indexes (OF c0 r0 :: rest)) /\ In t i).
+Proof.
+  intros Hall HP HC. split; [exact (df_agg_frames g h m ch c0 r0 rest P C Hall HP HC)|]. split.
+  - intros ->. exact (join_index_spec HO _ C HC).
+  - intros ->. exact (join_index_spec HO _ P HP).
+Qed.
+Print Assumptions C08_sum_mean_count_frames.
 
 (* the concrete cell operations of pow_, the comparisons and min_/max_ (exact-integer domain), and the pointwise law
    instantiated for every operator name; min_/max_ go through df_sync + np.minimum/np.maximum (minmax) *)
